@@ -213,6 +213,7 @@ def rawsOf : List Ev → List (List Bytes)
   | [] => []
   | .cmd _ _ _ raw :: h => raw :: rawsOf h
   | .wake _ _ _ _ :: h => rawsOf h
+  | .expire _ _ _ :: h => rawsOf h
 
 theorem logEv_code_cmd (w : List String) (st : LogSt) (ve : Bool) (now : Nat) (obs : Option (List Bytes)) (raw : List Bytes) :
     (logEv (Cfg.code w) st (.cmd ve now obs raw)).1 = if isWrite w (nameOf raw) = true then [raw] else [] := by
@@ -221,6 +222,10 @@ theorem logEv_code_cmd (w : List String) (st : LogSt) (ve : Bool) (now : Nat) (o
 
 theorem logEv_code_wake (w : List String) (st : LogSt) (db now : Nat) (left : Bool) (key : Bytes) :
     (logEv (Cfg.code w) st (.wake db now left key)).1 = [] := by
+  simp [logEv, Cfg.code]
+
+theorem logEv_code_expire (w : List String) (st : LogSt) (db now : Nat) (key : Bytes) :
+    (logEv (Cfg.code w) st (.expire db now key)).1 = [] := by
   simp [logEv, Cfg.code]
 
 /-- the code's log is the sub-list of those commands whose name is in the table: each once, in execution order -/
@@ -236,6 +241,9 @@ theorem log_code_eq_filter (w : List String) (st : LogSt) (h : List Ev) :
     | wake db now left key =>
       rw [logFrom, logEv_code_wake, ih, rawsOf]
       simp
+    | expire db now key =>
+      rw [logFrom, logEv_code_expire, ih, rawsOf]
+      simp
 
 /-- one `append_command_in_db` writes the entries `selFor … ++ [cmd]` and moves `last_db` as the tracking says -/
 theorem appendInDb_eq (cfg : Cfg) (st : LogSt) (file : Bytes) (d : Nat) (cmd : List Bytes) :
@@ -247,47 +255,55 @@ theorem appendInDb_eq (cfg : Cfg) (st : LogSt) (file : Bytes) (d : Nat) (cmd : L
   · simp only [h, if_false]
     simp [fileOf]
 
-theorem fileStep_eq (w : List String) (sel wake eff : Bool) (hwf : isWrite w "SELECT" = false) (s : Code.FileSt) (ev : Ev) :
-    (Code.fileStep w sel wake eff s ev).file = s.file ++ fileOf (logEv (Cfg.treeE w sel wake eff) ⟨s.conn, s.last⟩ ev).1 ∧
-    (⟨(Code.fileStep w sel wake eff s ev).conn, (Code.fileStep w sel wake eff s ev).last⟩ : LogSt) =
-      (logEv (Cfg.treeE w sel wake eff) ⟨s.conn, s.last⟩ ev).2 := by
+theorem fileStep_eq (w : List String) (sel wake eff exp : Bool) (hwf : isWrite w "SELECT" = false) (s : Code.FileSt) (ev : Ev) :
+    (Code.fileStep w sel wake eff exp s ev).file = s.file ++ fileOf (logEv (Cfg.treeX w sel wake eff exp) ⟨s.conn, s.last⟩ ev).1 ∧
+    (⟨(Code.fileStep w sel wake eff exp s ev).conn, (Code.fileStep w sel wake eff exp s ev).last⟩ : LogSt) =
+      (logEv (Cfg.treeX w sel wake eff exp) ⟨s.conn, s.last⟩ ev).2 := by
   cases ev with
   | cmd ve now obs raw =>
     by_cases hw : isWrite w (nameOf raw) = true
     · have hs : nameOf raw ≠ "SELECT" := by
         intro h; rw [h, hwf] at hw; exact absurd hw (by decide)
       cases he : entryOf eff raw obs with
-      | none => simp [Code.fileStep, logEv, hw, he, Cfg.treeE, fileOf]
+      | none => simp [Code.fileStep, logEv, hw, he, Cfg.treeX, fileOf]
       | some e =>
-        have := appendInDb_eq (Cfg.treeE w sel wake eff) ⟨s.conn, s.last⟩ s.file s.conn e
-        simp only [Cfg.treeE] at this
-        simp only [Code.fileStep, logEv, hw, if_true, hs, if_false, he, Cfg.treeE, this]
+        have := appendInDb_eq (Cfg.treeX w sel wake eff exp) ⟨s.conn, s.last⟩ s.file s.conn e
+        simp only [Cfg.treeX] at this
+        simp only [Code.fileStep, logEv, hw, if_true, hs, if_false, he, Cfg.treeX, this]
         simp
     · have hw' : isWrite w (nameOf raw) = false := by simpa using hw
-      simp [Code.fileStep, logEv, hw', Cfg.treeE, fileOf]
+      simp [Code.fileStep, logEv, hw', Cfg.treeX, fileOf]
   | wake db now left key =>
     cases wake with
-    | false => simp [Code.fileStep, logEv, Cfg.treeE, fileOf]
+    | false => simp [Code.fileStep, logEv, Cfg.treeX, fileOf]
     | true =>
-      have := appendInDb_eq (Cfg.treeE w sel true eff) ⟨s.conn, s.last⟩ s.file db (popCmd left key)
-      simp only [Cfg.treeE] at this
-      simp only [Code.fileStep, logEv, if_true, Cfg.treeE, this]
+      have := appendInDb_eq (Cfg.treeX w sel true eff exp) ⟨s.conn, s.last⟩ s.file db (popCmd left key)
+      simp only [Cfg.treeX] at this
+      simp only [Code.fileStep, logEv, if_true, Cfg.treeX, this]
+      simp
+  | expire db now key =>
+    cases exp with
+    | false => simp [Code.fileStep, logEv, Cfg.treeX, fileOf]
+    | true =>
+      have := appendInDb_eq (Cfg.treeX w sel wake eff true) ⟨s.conn, s.last⟩ s.file db (delCmd key)
+      simp only [Cfg.treeX] at this
+      simp only [Code.fileStep, logEv, if_true, Cfg.treeX, this]
       simp
 
 /-- the file after a history = what was there ++ the serialisation of the log -/
-theorem fileAfter_eq_from (w : List String) (sel wake eff : Bool) (hwf : isWrite w "SELECT" = false) (s : Code.FileSt) (h : List Ev) :
-    (Code.fileAfter w sel wake eff s h).file = s.file ++ fileOf (logFrom (Cfg.treeE w sel wake eff) ⟨s.conn, s.last⟩ h) := by
+theorem fileAfter_eq_from (w : List String) (sel wake eff exp : Bool) (hwf : isWrite w "SELECT" = false) (s : Code.FileSt) (h : List Ev) :
+    (Code.fileAfter w sel wake eff exp s h).file = s.file ++ fileOf (logFrom (Cfg.treeX w sel wake eff exp) ⟨s.conn, s.last⟩ h) := by
   induction h generalizing s with
   | nil => simp [Code.fileAfter, logFrom, fileOf]
   | cons ev t ih =>
-    have hstep := fileStep_eq w sel wake eff hwf s ev
-    have := ih (Code.fileStep w sel wake eff s ev)
+    have hstep := fileStep_eq w sel wake eff exp hwf s ev
+    have := ih (Code.fileStep w sel wake eff exp s ev)
     simp only [Code.fileAfter, List.foldl_cons] at this ⊢
     rw [this, hstep.1, hstep.2, logFrom, fileOf_append, List.append_assoc]
 
-theorem fileAfter_eq (w : List String) (sel wake eff : Bool) (hwf : isWrite w "SELECT" = false) (h : List Ev) :
-    (Code.fileAfter w sel wake eff {} h).file = fileOf (log (Cfg.treeE w sel wake eff) h) := by
-  have := fileAfter_eq_from w sel wake eff hwf {} h
+theorem fileAfter_eq (w : List String) (sel wake eff exp : Bool) (hwf : isWrite w "SELECT" = false) (h : List Ev) :
+    (Code.fileAfter w sel wake eff exp {} h).file = fileOf (log (Cfg.treeX w sel wake eff exp) h) := by
+  have := fileAfter_eq_from w sel wake eff exp hwf {} h
   simpa [log] using this
 
 end Ferrous.Aof
